@@ -334,6 +334,12 @@ pub fn topo_named(cell: &Cell, name: &str) -> Topo {
         "L3" | "silent-mid" | "every-other" | "dup" | "ecmp" | "refuse" => topo_linear(cell, 3, Target::Answers),
         "L4" => topo_linear(cell, 4, Target::Answers),
         "silent-target" => topo_linear(cell, 3, Target::Silent),
+        "far-target-late" => {
+            // 199 silent routers, the target at distance 200 starts answering in round 1
+            let mut t = topo_linear(cell, 200, Target::AnswersFromRound(1));
+            t.hops.iter_mut().for_each(|h| h.kind = HopKind::Silent);
+            t
+        }
         "silent-all" => {
             let mut t = topo_linear(cell, 3, Target::Silent);
             t.hops.iter_mut().for_each(|h| h.kind = HopKind::Silent);
